@@ -90,6 +90,9 @@ package server
 //@     assert [len-grows] len(namespaceManager.prefixToExpansionMapping) == old(len(namespaceManager.prefixToExpansionMapping)) + 1
 //@     assert [new-present] has(namespaceManager.prefixToExpansionMapping, "ns" + itoa(old(len(namespaceManager.prefixToExpansionMapping))))
 //@     assert [old-kept] forall p string :: old(has(namespaceManager.prefixToExpansionMapping, p)) ==> has(namespaceManager.prefixToExpansionMapping, p)
+//@     assert [new-prefix-index] nsIndex("ns" + itoa(old(len(namespaceManager.prefixToExpansionMapping)))) == old(len(namespaceManager.prefixToExpansionMapping))
+//@     assert [only-new-added] forall p string :: has(namespaceManager.prefixToExpansionMapping, p) ==> old(has(namespaceManager.prefixToExpansionMapping, p)) || p == "ns" + itoa(old(len(namespaceManager.prefixToExpansionMapping)))
+//@     assert [shape-after-insert] forall p string :: has(namespaceManager.prefixToExpansionMapping, p) ==> 0 <= nsIndex(p) && nsIndex(p) < len(namespaceManager.prefixToExpansionMapping) && p == "ns" + itoa(nsIndex(p))
 //@     assert [dense-after-insert] forall i int :: 0 <= i && i < len(namespaceManager.prefixToExpansionMapping) ==> has(namespaceManager.prefixToExpansionMapping, "ns" + itoa(i))
 //@   at call Itoa#1
 //@     assert [fresh-prefix] !has(namespaceManager.prefixToExpansionMapping, "ns" + itoa(len(namespaceManager.prefixToExpansionMapping)))
@@ -474,3 +477,154 @@ package server
 //@     ghost committedG := $result == nil
 //@   at call updateDataset#1 before
 //@     assert [C19:counter-updated-after-commit-under-the-lock] committedG && has($held, addrOf(ds.WriteLock))
+
+// ---------------------------------------------------------------------------
+// C07: deleting a dataset: the deleted set is extended copy-on-write and persisted before the dataset record is
+// removed; the garbage collector only selects keys whose dataset field is in the deleted set
+
+//@ assumed (*DsManager).IsDataset
+//@   pure
+//@ assumed (*DsManager).GetDataset
+//@   pure
+//@ assumed (*Store).deleteValue
+//@   modifies $recordsDeleted
+//@   ensures result == nil ==> $recordsDeleted == old($recordsDeleted) + 1
+//@   ensures result != nil ==> $recordsDeleted == old($recordsDeleted)
+//@ ghost $recordsDeleted int
+//@ assumed (*sync.Map).Delete
+//@   pure
+//@ assumed (*Dataset).getStorageKey
+//@   pure
+//@ assumed (*DsManager).storeEntity
+//@   preserves Store.deletedDatasets, Store.nextDatasetID, map[uint32]bool, DsManager.*
+//@ assumed (*DsManager).NewDatasetEntity
+//@   pure
+//@ assumed (*Store).GetEntity
+//@   preserves Store.deletedDatasets, map[uint32]bool, DsManager.*
+//@ assumed (*bus.EventBus).UnregisterTopic
+//@   pure
+//@ assumed (server.EventBus).UnregisterTopic
+//@   pure
+//@ assumed (server.EventBus).Emit
+//@   pure
+
+//@ unit (*DsManager).DeleteDataset
+//@   prop C07
+//@   ghost idG int = 0
+//@   requires dsm != nil && dsm.store != nil && !has($held, addrOf(dsm.lock))
+//@   requires [callers-hold-no-lock] forall l int :: has($held, l) ==> lockLevel(l) < 1
+//@   ensures [C07:published-deleted-set-never-mutated] forall k uint32 :: has(old(dsm.store.deletedDatasets), k) <==> old(has(dsm.store.deletedDatasets, k))
+//@   ensures [C07:acknowledged-delete-is-recorded] result == nil ==> has(dsm.store.deletedDatasets, idG) && has($persisted, "deleteddatasets")
+//@   ensures [C07:earlier-deletions-stay-recorded] forall k uint32 :: old(has(dsm.store.deletedDatasets, k)) ==> has(dsm.store.deletedDatasets, k)
+//@   ensures [C07:record-removed-only-after-the-deleted-set-was-persisted] $recordsDeleted > old($recordsDeleted) ==> has($persisted, "deleteddatasets") && has(dsm.store.deletedDatasets, idG)
+//@   at call GetDataset#1
+//@     ghost idG := $result.InternalID
+//@   at call StoreObject#1 before
+//@     assert [C07:persisted-set-contains-this-dataset-and-all-earlier-ones] has(newDeletedDatasets, existingDataset.InternalID) && (forall k uint32 :: has(dsm.store.deletedDatasets, k) ==> has(newDeletedDatasets, k))
+//@   at call deleteValue#1 before
+//@     assert [C07:deleted-set-persisted-before-the-record-is-removed] has($persisted, "deleteddatasets") && has(dsm.store.deletedDatasets, existingDataset.InternalID)
+//@   loop 1
+//@     invariant newDeletedDatasets != 0 && newDeletedDatasets != dsm.store.deletedDatasets
+//@     invariant forall k uint32 :: visited(k) ==> has(newDeletedDatasets, k)
+//@     invariant forall k uint32 :: has(dsm.store.deletedDatasets, k) <==> old(has(dsm.store.deletedDatasets, k))
+//@     invariant dsm.store.deletedDatasets == old(dsm.store.deletedDatasets)
+
+// garbage collection: each selector decodes the dataset id at the offset of the family it is used for
+// (json keys: offset 10; outgoing / incoming reference keys: offset 36) and answers from the deleted set
+//@ unit (*GarbageCollector).Cleandeleted$1
+//@   prop C07
+//@   requires garbageCollector != nil && garbageCollector.store != nil && len(key) == 24
+//@   ensures [C07:json-selector-tests-the-dataset-field] result == (has(garbageCollector.store.deletedDatasets, encBE32(key, 10)) && garbageCollector.store.deletedDatasets[encBE32(key, 10)])
+//@   modifies none
+//@   safe slice
+//@ unit (*GarbageCollector).Cleandeleted$4
+//@   prop C07
+//@   requires garbageCollector != nil && garbageCollector.store != nil && len(key) == 40
+//@   ensures [C07:outgoing-selector-tests-the-dataset-field] result == (has(garbageCollector.store.deletedDatasets, encBE32(key, 36)) && garbageCollector.store.deletedDatasets[encBE32(key, 36)])
+//@   modifies none
+//@   safe slice
+//@ unit (*GarbageCollector).Cleandeleted$5
+//@   prop C07
+//@   requires garbageCollector != nil && garbageCollector.store != nil && len(key) == 40
+//@   ensures [C07:incoming-selector-tests-the-dataset-field] result == (has(garbageCollector.store.deletedDatasets, encBE32(key, 36)) && garbageCollector.store.deletedDatasets[encBE32(key, 36)])
+//@   modifies none
+//@   safe slice
+
+//@ assumed (*GarbageCollector).isCancelled
+//@   pure
+
+//@ unit (*GarbageCollector).Cleandeleted
+//@   prop C07
+//@   requires garbageCollector != nil && garbageCollector.store != nil
+//@   at call deleteByPrefixAndSelectorFunction#1 before
+//@     assert [C07:json-index-swept-by-index-prefix] len(prefix) == 2 && encBE16(prefix, 0) == 1
+//@   at call deleteByPrefixAndSelectorFunction#2 before
+//@     assert [C07:change-log-swept-only-for-deleted-datasets] len(prefix) == 6 && encBE16(prefix, 0) == 4 && encBE32(prefix, 2) == deletedDsID && has(garbageCollector.store.deletedDatasets, deletedDsID)
+//@   at call deleteByPrefixAndSelectorFunction#3 before
+//@     assert [C07:latest-index-swept-only-for-deleted-datasets] len(prefix) == 6 && encBE16(prefix, 0) == 8 && encBE32(prefix, 2) == deletedDsID && has(garbageCollector.store.deletedDatasets, deletedDsID)
+//@   at call deleteByPrefixAndSelectorFunction#4 before
+//@     assert [C07:outgoing-index-swept-by-index-prefix] len(prefix) == 2 && encBE16(prefix, 0) == 3
+//@   at call deleteByPrefixAndSelectorFunction#5 before
+//@     assert [C07:incoming-index-swept-by-index-prefix] len(prefix) == 2 && encBE16(prefix, 0) == 2
+//@   loop 1
+//@     invariant forall k uint32 :: visited(k) ==> has(garbageCollector.store.deletedDatasets, k)
+
+// the sweep deletes only keys the selector accepted, and only keys it read under the given prefix
+//@ unit (*GarbageCollector).deleteByPrefixAndSelectorFunction
+//@   prop C07
+//@   ghost selG intset = emptyset()
+//@   ghost selectedG bool = false
+//@   frame-assumed preserves GarbageCollector.*, Store.deletedDatasets, map[uint32]bool
+//@   requires garbageCollector != nil && garbageCollector.store != nil && (len(prefix) == 2 || len(prefix) == 6)
+//@   dyncall selector pure
+//@   at $2 call selector#1
+//@     ghost selectedG := $result
+//@   at $2 call append#1 before
+//@     assert [C07:only-selected-keys-are-collected] selectedG
+//@     ghost selG := add(selG, arrOf(key))
+//@   at $1$1 call Delete#1 before
+//@     assert [C07:gc-deletes-only-selected-keys] has(selG, arrOf(key))
+//@   loop $2:1
+//@     invariant 0 <= keysCollected && keysCollected <= len(keysForDelete)
+//@     invariant forall j int :: 0 <= j && j < len(keysForDelete) ==> has(selG, arrOf(keysForDelete[j]))
+//@   loop $1$1:1
+//@     invariant -1 <= $i && $i < len(keysForDelete)
+//@     invariant forall j int :: 0 <= j && j < len(keysForDelete) ==> has(selG, arrOf(keysForDelete[j]))
+
+// creating a dataset: a fresh internal id (never reused), persisted before the dataset record that carries it
+//@ inline server.NewDataset
+//@ assumed (*Store).storeValue
+//@   modifies $valuesStored
+//@   ensures result == nil ==> $valuesStored == old($valuesStored) + 1
+//@   ensures result != nil ==> $valuesStored == old($valuesStored)
+//@ ghost $valuesStored int
+//@ assumed (*sync.Map).Store
+//@   pure
+//@ assumed (server.EventBus).RegisterTopic
+//@   pure
+
+//@ unit (*Store).moveValue
+//@   prop C07
+//@   requires s != nil
+//@   at $1 call Delete#1 before
+//@     assert [C07:rename-removes-the-old-record] key == oldKey
+//@   at $1 call Set#1 before
+//@     assert [C07:rename-writes-the-new-record-in-the-same-transaction] key == newKey && val == newValue && $arg0 == txn
+
+//@ unit (*DsManager).CreateDataset
+//@   prop C07 C04 C19
+//@   ghost idPersistedG bool = false
+//@   ghost freshG int = 0
+//@   requires dsm != nil && dsm.store != nil && !has($held, addrOf(dsm.lock)) && dsm.store.nextDatasetID < 4294967295
+//@   requires [callers-hold-no-lock] forall l int :: has($held, l) ==> lockLevel(l) < 1
+//@   ensures [C07:next-dataset-id-never-goes-back] dsm.store.nextDatasetID >= old(dsm.store.nextDatasetID)
+//@   at call IsDataset#1 before
+//@     ghost freshG := dsm.store.nextDatasetID
+//@   at call storeValue#1
+//@     ghost idPersistedG := $result == nil
+//@   at call storeValue#1 before
+//@     assert [C07,C04:persisted-next-id-is-above-the-new-datasets-id] encBE32(value, 0) == freshG + 1 && ds.InternalID == freshG && dsm.store.nextDatasetID == freshG + 1
+//@   at call storeValue#2 before
+//@     assert [C04:next-id-persisted-before-the-dataset-record] idPersistedG && ds.InternalID == freshG
+//@   at call storeEntity#1 before
+//@     assert [C19:meta-entity-stored-in-core-dataset-after-the-record] $valuesStored == old($valuesStored) + 2
